@@ -1,8 +1,8 @@
 SPECIFICATION Spec
 CONSTANTS
   MaxSeeds = 2
-  MaxOps = 2
-  Universe = "quick"
+  MaxOps = 1
+  Universe = "thorough"
 INVARIANT Commutative
 INVARIANT Associative
 INVARIANT Distributive
